@@ -18,6 +18,7 @@ from harness import c22_models, core, genlib, mm
 PY = "/venv/bin/python"
 SHIM = str(pathlib.Path(__file__).resolve().parent / "c22_shim")
 REPO = os.environ.get("VERIF_REPO", "/repo")
+CONSOLE_SCRIPT = "/venv/bin/aas-core-codegen"
 
 WARM_MODEL = {
     "doc": "",
@@ -49,6 +50,14 @@ def histories(tier: str):
         sn = genlib.discover_snippets(mp, t, mm.default_snippets(t), disc / t)
         out.append(("rich", rich_text, t, sn))
         out.append(("failing", fail_text, t, mm.default_snippets(t)))
+    # two snippet files whose names are not valid keys: the report lists them -- in which order?
+    small = genlib.render(WARM_MODEL)
+    for t in (["csharp", "jsonschema"] if tier == "quick" else genlib.TARGETS):
+        sn = dict(mm.default_snippets(t))
+        sn["bad name one.txt"] = "x"
+        sn["another bad-name.txt"] = "y"
+        sn["Zzz/yet another.txt"] = "z"
+        out.append(("bad_snippet_names", small, t, sn))
     names = ["constrained_primitives"] if tier == "quick" else ["constrained_primitives", "deep_class_hierarchy", "enum", "list_of_classes", "list_of_constrained_primitives", "list_of_enums", "list_of_primitives", "primitive_types"]
     for name, text, snippets in c22_models.repo_models(pathlib.Path(REPO), names):
         for t in genlib.TARGETS:
@@ -133,7 +142,8 @@ def one_history(args):
             )
             cli = ["--model_path", str(mp), "--snippets_dir", str(sd), "--output_dir", str(out), "--target", target, "--cache_model"]
             if cfg["proc"] == "sub":
-                cmd = [PY, "-m", "aas_core_codegen"] + cli
+                # the installed console script (entry_point); `python -m aas_core_codegen` drops the exit status
+                cmd = [PY, CONSOLE_SCRIPT] + cli
             else:
                 cmd = [PY, "-m", "harness.c22_host", str(wdir / "meta_model.py"), str(wdir / "snippets"), str(wdir / "out"), wt, "--"] + cli
             p = subprocess.run(cmd, cwd=str(base), env=env, stdout=subprocess.PIPE, stderr=subprocess.PIPE, timeout=1800)
@@ -146,9 +156,11 @@ def one_history(args):
                 entries.append((rel, sha(f.read_bytes()) if f.is_file() else "missing"))
             so = p.stdout.decode("utf-8", "replace").replace(str(out), "<OUT>")
             se = p.stderr.decode("utf-8", "replace").replace(str(out), "<OUT>")
+            cache_after = sum(1 for d in tmp.glob("aas-core-codegen-*") if d.is_dir() for _ in d.glob("model-*.pickle"))
             runs.append(
                 {
                     "cfg": cfg,
+                    "cache_after": cache_after,
                     "files": sha(json.dumps(entries).encode("utf-8")),
                     "nfiles": len(entries),
                     "stdout": sha(so.encode("utf-8")),
